@@ -1025,6 +1025,15 @@ def write_set_conflicts(sched, trace_dir):
             vis[e[1]] = i
     end = len(sched.log)
     conflicts = []
+    # parent vs worker: the parent touching a path a worker writes, between that worker's start and the
+    # moment its exit became visible to the parent
+    for ev in getattr(sched, 'parent_events', None) or []:
+        if len(ev) < 6 or ev[4] != sched.call_id or ev[1] in ('mkdtemp', 'mkstemp', 'rpc'):
+            continue
+        pos = ev[5]
+        for w, ws in wsets.items():
+            if ev[2] in ws and start.get(w, 0) < pos <= vis.get(w, end):
+                conflicts.append({'kind': 'parent-worker', 'worker': w, 'path': ev[2], 'parent_event': ev[1]})
     ids = sorted(wsets)
     for a in ids:
         for b in ids:
